@@ -49,7 +49,7 @@ def replay_obligation(ob, idx):
 
 
 def run(prop, args, Ts, whichs, keep=None, level="proof", extra=None, functions=(), max_replays=8, flags=(), prefix="",
-        only_safety=False, more_jobs=(), enum_subset_in_quick=False):
+        only_safety=False, more_jobs=(), enum_subset_in_quick=False, selfcheck=False):
     run_ = core.Run(prop, args.tier, level, "./check %s --tier %s" % (prop, args.tier))
     select = None
     if enum_subset_in_quick and args.tier == "quick":
@@ -84,6 +84,8 @@ def run(prop, args, Ts, whichs, keep=None, level="proof", extra=None, functions=
             n += 1
             if ob.replay.get("reproduced") is False and "engine disagreement" in ob.replay.get("how", ""):
                 run_.error("model of %s does not replay natively: %s" % (ob.name, ob.replay))
+    if selfcheck:
+        differential(run_, jobs, args.tier)
     for f in functions:
         run_.function(f, "llvc: real template instantiated by an extern \"C\" wrapper, clang -O2 IR -> z3 bit-vector VCs")
     run_.assume(*core.STANDING_ASSUMPTIONS["E2"])
@@ -94,3 +96,44 @@ def run(prop, args, Ts, whichs, keep=None, level="proof", extra=None, functions=
     if extra:
         extra(run_)
     return run_
+
+
+def differential(run_, jobs, tier):
+    """Engine self-validation (bounded, not a proof obligation of the property): a sample of the wrappers is compiled
+    natively with ASan+UBSan and run on random inputs that satisfy the contract's precondition; llvc's own evaluation of the
+    IR on the same inputs must give the same return value, observables and final buffer.  A mismatch is a checker error
+    (the engine's semantics are wrong), never a violation."""
+    import copy
+    import multiprocessing
+    import random
+    import time
+    rng = random.Random(run_.seed + 11)
+    cand = [j for j in jobs if j.get("includes") and len(j["wrappers"]) > 0 and not j.get("include_dirs")]
+    pick = rng.sample(cand, min(len(cand), 12 if tier == "quick" else 60))
+    djobs = []
+    for j in pick:
+        d = copy.copy(j)
+        ws = list(j["wrappers"])
+        rng.shuffle(ws)
+        d["wrappers"] = ws[:2]
+        d["trials"] = 4 if tier == "quick" else 10
+        d["seed"] = rng.randrange(1 << 30)
+        djobs.append(d)
+    t0 = time.time()
+    with multiprocessing.get_context("fork").Pool(min(16, len(djobs))) as pool:
+        res = pool.map(_diff_safe, djobs, chunksize=1)
+    runs = sum(r[1] for r in res)
+    bad = [b for r in res for b in r[2]]
+    run_.add(core.Obligation("selfcheck.llvc-evaluation-agrees-with-native-execution", core.BPASS if not bad else core.BFAIL, "llvc vs native ASan/UBSan", time.time() - t0, kind="bounded",
+                             model={"mismatches": bad[:3]} if bad else None, detail="%d random runs of %d wrappers" % (runs, sum(len(d["wrappers"]) for d in djobs))))
+    if bad:
+        run_.error("engine self-validation failed: llvc's evaluation of the IR differs from native execution: %s" % json.dumps(bad[0], default=str)[:500])
+    run_.bounded.append({"what": "llvc concrete evaluation vs native execution on random precondition-satisfying inputs (engine self-validation)", "evaluations": runs,
+                         "distinct_nontrivial": runs, "seconds": round(time.time() - t0, 1)})
+
+
+def _diff_safe(job):
+    try:
+        return harness.differential_job(job)
+    except Exception as ex:
+        return (job["tag"], 0, [{"wrapper": job["tag"], "error": "%s: %s" % (type(ex).__name__, str(ex)[:300])}])
